@@ -17,7 +17,29 @@ def check(pid, level):
 def replay_case(pid, path):
     """Re-runs the case stored in a replay file through the harness and prints the outcome."""
     rp = json.load(open(path))
-    sub = rp.get("extra", {}).get("subcmd") or REPLAYERS.get(pid)
+    ex = rp.get("extra", {})
+    if ex.get("kind") == "trace" and isinstance(rp.get("case"), dict) and "trace" in rp["case"]:
+        # a recorded trace the specification rejected: validate it again with TLC
+        cfgs = {"TraceQueue.tla": "Trace_Queue.cfg", "TraceTcp.tla": "Trace_Tcp.cfg", "TraceUdp.tla": "Trace_Udp.cfg",
+                "TraceResolver.tla": "Trace_Resolver.cfg", "TraceRegistry.tla": "Trace_Registry.cfg", "TracePcap.tla": "Trace_Pcap.cfg",
+                "TraceHttpServer.tla": "Trace_HttpServer.cfg", "TraceHttpProxy.tla": "Trace_HttpProxy.cfg", "TraceSocks.tla": "Trace_Socks.cfg"}
+        module = ex.get("module")
+        cfg = ex.get("cfg") or cfgs.get(module)
+        lines = [x.rstrip("\n") for x in rp["case"]["trace"] if x.strip() and x.strip() != "..."]
+        ctx = vlib.Ctx(pid, "quick", CHECKS[pid][1])
+        tp = ctx.path("replay.trace")
+        with open(tp, "w") as f:
+            f.write("\n".join(lines) + "\n")
+        ok, info = vlib.tlc_trace(ctx, module, cfg, tp, timeout=1500)
+        import shutil
+        shutil.rmtree(ctx.workdir, ignore_errors=True)
+        print("trace of %d events, module %s: %s" % (len(lines), module, "accepted" if ok else
+              "rejected at event %s: %s | %s" % (info.get("matched"), lines[info["matched"]][:300] if info.get("matched", 0) < len(lines) else "<end>", info.get("state", ""))))
+        if not ok:
+            print("VIOLATION property=%s replay=%s" % (pid, path))
+            return 1
+        return 0
+    sub = ex.get("subcmd") or REPLAYERS.get(pid)
     if not sub:
         print("replay not supported for", pid)
         return 2
